@@ -316,6 +316,10 @@ def exc_arm(run, snap, exc, args, kwargs):
     mech = f"{'hmm' if snap['method'].startswith('hmm') else snap['method']}-raises-{type(exc).__name__}"
     if first_chrom_all_filtered and isinstance(exc, AssertionError):
         mech = "hmm-first-chromosome-all-filtered-AssertionError"
+    auto = [b["log2"][i] for i in model if b["chromosome"][i].replace("chr", "").isdigit()] or [b["log2"][i] for i in model]
+    if snap["method"].startswith("hmm") and isinstance(exc, ZeroDivisionError) and len(set(auto)) <= 1:
+        # the HMM's emission sd is estimated from the autosomal survivors: one bin, or identical values, give 0
+        mech = "hmm-zero-variance-ZeroDivisionError"
     _emit(run, snap, [(mech, f"{snap['method']}: raised {exc!r}")], None, None, None, [], exc=repr(exc))
 
 
